@@ -198,6 +198,7 @@ func pathMiddlebox(r *Run, p dnsPath, serverAddr string) func(seq int) bool {
 				}
 				msg.Extra = extra
 			}
+			msg.Compress = true
 			out, err := msg.Pack()
 			if err != nil {
 				r.Count("path_repack_failed")
@@ -228,9 +229,12 @@ func pathMiddlebox(r *Run, p dnsPath, serverAddr string) func(seq int) bool {
 			}
 			msg.Extra = extra
 		}
-		out, err := msg.Pack()
-		if err != nil {
-			out = d.Data
+		out := d.Data
+		if p.FoldAnswers || p.StripEdns {
+			msg.Compress = true // a resolver re-encodes with name compression, as the origin did
+			if o2, err := msg.Pack(); err == nil {
+				out = o2
+			}
 		}
 		if p.MaxAnswer > 0 && len(out) > p.MaxAnswer {
 			r.Count("path_answer_too_big")
@@ -323,10 +327,8 @@ func scenarioC11(r *Run) {
 	negotiated := fmt.Sprintf("type=%s up=%s/%d down=%s/%d", qt, dc.Serializer.Upstream.Encoder.Name(), dc.Serializer.Upstream.FragmentSize, dc.Serializer.Downstream.Encoder.Name(), dc.Serializer.Downstream.FragmentSize)
 	r.Info["negotiated"] = negotiated
 	r.AddShape(negotiated)
-	var srv net.Conn
-	select {
-	case srv = <-accepted:
-	default:
+	srv := serverConnFor(accepted, dc)
+	if srv == nil {
 		r.Fail("world-setup", "server did not accept the session")
 		return
 	}
